@@ -327,6 +327,52 @@ class DocGen:
         self.features.add("shared-field-at-two-depths")
         return [deep, above] if c.chance(128) else [above, deep]
 
+    def g_stream_twice(self, tname, path):
+        """Incremental stratum: a fragment holding a streamed list field is spread at two places, and one of
+        the two places selects the same list again with an identical (unlabelled) @stream and other
+        sub-fields, so that one field node takes part in two different merged field lists."""
+        c = self.c
+        cands = []
+        for f in self.fields_of(tname):
+            ft = named(f["type"])
+            if self.m.kind(ft) != "object" or any(is_nn(a["type"]) and a["default"] is None for a in f["args"]):
+                continue
+            for lf in self.fields_of(ft):
+                outer = nullable(lf["type"]) if is_nn(lf["type"]) else lf["type"]
+                if not isinstance(outer, str) and self.composite(named(lf["type"])) and not any(
+                        is_nn(a["type"]) and a["default"] is None for a in lf["args"]):
+                    cands.append((f, ft, lf))
+        if not cands:
+            return []
+        f, ft, lf = c.choose(cands)
+        lt = named(lf["type"])
+        k1, k2, lk = self.fresh("y"), self.fresh("y"), self.fresh("l")
+        stream = {"n": "stream", "args": [["initialCount", {"k": "int", "v": str(c.choose([0, 0, 1, 2]))}]]}
+        leafs = [x for x in self.fields_of(lt) if not self.composite(named(x["type"]))
+                 and not any(is_nn(a["type"]) and a["default"] is None for a in x["args"])]
+
+        def leaf(alias):
+            n = c.choose(leafs)["name"] if leafs and c.chance(200) else "__typename"
+            return {"k": "field", "alias": alias, "n": n, "args": [], "dirs": [], "sel": None}
+
+        # plain leaf selections (no variables, no fragments): the stratum is about the two merged field lists
+        sub_a = [leaf(None)] + ([leaf(self.fresh("a"))] if c.chance(100) else [])
+        sub_b = [leaf(self.fresh("b")) for _ in range(c.count(1, 2))]
+        name = self.fresh("FS")
+        self.frags.append({"k": "frag", "desc": None, "n": name, "vars": [], "on": ft, "dirs": [],
+                           "sel": [{"k": "field", "alias": lk, "n": lf["name"], "args": [], "dirs": [dict(stream)],
+                                    "sel": sub_a}]})
+        spread = {"k": "spread", "n": name, "args": None, "dirs": []}
+        first = {"k": "field", "alias": k1, "n": f["name"], "args": [], "dirs": [], "sel": [dict(spread)]}
+        second = {"k": "field", "alias": k2, "n": f["name"], "args": [], "dirs": [],
+                  "sel": [dict(spread), {"k": "field", "alias": lk, "n": lf["name"], "args": [],
+                                         "dirs": [dict(stream)], "sel": sub_b}]}
+        for key in (k1, k2):
+            self.registry.setdefault(path, {})[key] = ("<stream-twice>", key)
+        self.features.add("stream-twice")
+        self.features.add("stream")
+        return [first, second] if c.chance(128) else [second, first]
+
     # ---- whole documents ----------------------------------------------------------------------------
     def vardefs(self):
         return [{"desc": None, "n": n, "t": _g1_type(d["t"]), "default": d["default"], "dirs": []}
@@ -395,6 +441,8 @@ def g_document(c, m, depth=3, operation=None, incremental=False, n_ops=None, col
         sel = gen.g_selset(root, (), depth)
         if incremental and c.chance(90):
             sel = gen.g_overlap(root, ()) + sel
+        if incremental and c.chance(40):
+            sel = gen.g_stream_twice(root, ()) + sel
         if kind == "mutation":
             # several top-level fields with sub-selections
             for _ in range(c.count(1, 3)):
